@@ -36,6 +36,10 @@ class Harness:
         self.result_refs = {}  # nid -> weakref (C16)
         self.track_results = False
         self.fns = {}
+        self.attempts_store = {}  # (kind, store name) -> count
+        self.store_hook = None  # callable(kind, store); may block or raise
+        self.mt_in_flight = 0
+        self.max_mt_in_flight = 0
 
     def reset(self):
         with self.lock:
@@ -48,6 +52,9 @@ class Harness:
             self.raised = {}
             self.args_seen = {}
             self.result_refs = {}
+            self.attempts_store = {}
+            self.mt_in_flight = 0
+            self.max_mt_in_flight = 0
 
     # -- stamping
     def stamp(self, kind, nid, extra=None):
